@@ -69,6 +69,18 @@ CLAIMS = {
               "a function of data no API can change and query order cannot matter."),
         technique="dominance rule on call sites + transitive read-set vs mutable hand-out set + who-may-write rule + decision tables",
         design_ref="§4 C13"),
+    "C10": dict(
+        category="other",
+        text=("Exact (not ranked) panic-site audit over every function instance reachable from the ~360 fallible public entries on the "
+              "instance-level call graph: each of the ~540 panic-capable MIR sites (bounds/overflow/division asserts, unwrap/expect, "
+              "panic!/unreachable!, indexing, copy_from_slice, split_at, Vec::remove, chunks) is either discharged by a recognised guard "
+              "idiom evaluated on the code (constant-safe, in-memory sink, length-interval guard incl. relational `len >= end`, Some guard, "
+              "byte-length arithmetic, guarded subtraction) or listed in tables/panic_sites.tsv with a reason confirmed by reading and, for "
+              "parser sites, the dominating guards the reason depends on; plus the bounded-allocation rule for sizes derived from decoded "
+              "integers. A new unguarded site, or the removal of a guard a discharge/table entry relies on, is a violation. "
+              "The reasons in the table are reviewed judgements, not machine proofs."),
+        technique="reachability on the instance call graph + per-site guard discharge (interval/dominance) + reviewed exception table + taint-to-allocation rule",
+        design_ref="§4 C10, Appendix A"),
 }
 
 NOT_YET = "rule set designed in DESIGN.md but not built yet in this round; no claim is made"
